@@ -13,6 +13,10 @@ from .ctx import explore, Undecided
 UNITS = {}
 
 
+class CanaryNotApplicable(Exception):
+    pass
+
+
 class Unit(object):
     """one function (or region of a function) of /repo checked against its contract.
 
@@ -84,6 +88,8 @@ def _run_case(args):
         res['notes'] = notes
     except Undecided as e:
         res['undecided'] = str(e)
+    except CanaryNotApplicable as e:
+        res['canary_na'] = str(e)
     except Exception:
         res['error'] = traceback.format_exc()
     res['secs'] = time.time() - t0
@@ -125,7 +131,7 @@ def mutate_function(mod, qual, transformer):
     n = transformer(fn)
     ast.fix_missing_locations(fn)
     if not n:
-        raise RuntimeError('canary on %s changed nothing' % qual)
+        raise CanaryNotApplicable('canary on %s changed nothing (the code no longer has the mutated construct)' % qual)
 
 
 def replace_compare(fn, line_pred, old_op, new_op, nth=0):
